@@ -147,7 +147,10 @@ class Obligation(dict):
 
 
 class Report:
-    def __init__(self, prop, tier, seed, level, explanation):
+    def __init__(self, prop, tier, seed, level, explanation, partial=False):
+        # partial: a filtered debugging run (--only); its evidence goes to evidence/<id>.partial.json
+        # (git-ignored) so that the committed evidence/<id>.json always describes a complete run
+        self.partial = bool(partial)
         self.prop = prop
         self.tier = tier
         self.seed = seed
@@ -238,7 +241,10 @@ class Report:
             "obligation_table": [self._sample(o) for o in self.obls],
         }
         os.makedirs(os.path.join(VERIF, "evidence"), exist_ok=True)
-        path = os.path.join(VERIF, "evidence", self.prop + ".json")
+        path = os.path.join(VERIF, "evidence", self.prop + (".partial.json" if self.partial else ".json"))
+        if self.partial:
+            ev["partial_run"] = True
+            log("NOTE: filtered run (--only): evidence written to %s, evidence/%s.json left untouched" % (path, self.prop))
         tmp = path + ".tmp"
         with open(tmp, "w") as f:
             json.dump(ev, f, indent=1, default=str)
@@ -262,7 +268,8 @@ class Report:
     @staticmethod
     def _sample(o):
         keep = ("key", "engine", "functions", "shape", "symbolic", "bounds", "stubs", "verdict", "reason",
-                "solver", "solver_s", "queries", "model", "replay", "vacuity", "detail", "known_what", "cross")
+                "solver", "solver_s", "queries", "model", "replay", "vacuity", "detail", "known_what", "cross",
+                "native_replay", "replay_note")
         return {k: o[k] for k in keep if k in o}
 
     def write_replay(self, o):
